@@ -99,9 +99,49 @@ type AdmitKnobs struct {
 
 func mutateForUpdate(r *Rng, p *corev1.Pod) (*corev1.Pod, string) {
 	old := p.DeepCopy()
-	switch r.Intn(11) {
+	switch r.Intn(14) {
 	case 0:
 		return old, "identical"
+	case 11:
+		// the same image spelled differently: still another string, still an image change
+		cs := [][]corev1.Container{old.Spec.Containers, old.Spec.InitContainers}[r.Intn(2)]
+		if len(cs) == 0 {
+			cs = old.Spec.Containers
+		}
+		c := &cs[r.Intn(len(cs))]
+		if c.Image == "" {
+			c.Image = "img"
+			return old, "image-container"
+		}
+		switch r.Intn(6) {
+		case 0:
+			c.Image += ":latest"
+		case 1:
+			c.Image = "docker.io/library/" + c.Image
+		case 2:
+			c.Image = strings.ToUpper(c.Image[:1]) + c.Image[1:]
+		case 3:
+			c.Image += "@sha256:0000000000000000000000000000000000000000000000000000000000000000"
+		case 4:
+			c.Image += " "
+		default:
+			c.Image = strings.TrimSuffix(c.Image, ":latest") + ":v1"
+		}
+		return old, "image-respelled"
+	case 12:
+		// only spec.hostUsers differs between the stored and the submitted pod: not an image, not the container set
+		old.Spec.HostUsers = pick(r, []*bool{nil, bp(true), bp(false)})
+		if p.Spec.HostUsers == nil && old.Spec.HostUsers == nil {
+			old.Spec.HostUsers = bp(false)
+		}
+		return old, "hostUsers-only"
+	case 13:
+		// fields of the stored pod no property mentions differ: node assignment, service account, tolerations, resources
+		old.Spec.NodeName, old.Spec.ServiceAccountName = "node-7", "other-sa"
+		old.Spec.Tolerations = append(old.Spec.Tolerations, corev1.Toleration{Key: "k", Operator: corev1.TolerationOpExists})
+		old.Spec.Containers[0].Resources.Limits = corev1.ResourceList{}
+		old.Status.Phase = corev1.PodPending
+		return old, "insignificant-spec-fields"
 	case 9:
 		// the boundary between the init list and the regular list moves; the images, read init-then-regular, line up as before
 		if n := len(old.Spec.InitContainers); n > 0 {
@@ -256,6 +296,10 @@ func genAdmitCase(r *Rng, i int, k AdmitKnobs) *AdmitCase {
 	case "ctl":
 		a.Res = pick(r, controllerKinds)
 		a.Obj = ObjSpec{Kind: "controller", Pod: pod, CtlKind: a.Res}
+		if r.Chance(1, 3) {
+			a.Obj.OuterMeta = true
+			tag("ctl.outerMeta")
+		}
 		if a.Res == "replicationcontrollers" && r.Chance(1, 4) {
 			a.Obj.NoTemplate = true
 			tag("ctl.noTemplate")
